@@ -1,15 +1,160 @@
 /-
-  Driver handlers for the Plugin model. `handle op args` returns `none` when the
-  operation is not one of this file's.
+  Driver handlers for the Plugin model (C16).
+
+    plugrec <ui> <idmode 0|1> <enc> <filekey> <conv>
+    plugid  <ui> <enc> <stanzas> <conv>
+
+  <ui>       three characters, one per callback (DisplayMessage, RequestValue,
+             Confirm): `a` absent (nil) / `o` answers / `e` returns an error.
+             Scripted answers: RequestValue → "secret" if secret else "public";
+             Confirm → yes unless the prompt is the two bytes "no".
+  <enc>      hex of the recipient / identity string
+  <filekey>  hex (`-` = empty)
+  stanza     `<typehex>[,<arghex>]*|<bodyhex>`   (every string hex-encoded, body `-` if empty)
+  <stanzas>  `-` or stanzas separated by `;`
+  <conv>     stanzas separated by `;` followed by the end marker `eof` or `bad`
+             (so the empty conversation is just `eof`)
+
+  Reply: `<class> p1=<stanzas> r=<stanzas> ui=<calls>[ <values>]` where class is
+  one of `ok` / `incorrect` / `pluginerr:<hex>` / `protocol` / `eof` /
+  `malformed` / `nostanzas`, p1 is phase 1 WITHOUT the grease stanza, r the
+  replies, ui the log of callback invocations (`d:<body>` /
+  `r:<prompt>:<secret>` / `c:<prompt>:<yes>:<no>`), and the values of a
+  successful call are `st=<stanzas> labels=nil|some:<hex,…>` (plugrec) or
+  `key=<hex>` (plugid).
 -/
 import AgeModel.Wire
+import AgeModel.Plugin
 namespace AgeModel
 namespace Exec
 namespace Plugin
+open AgeModel.Plugin Wire
+
+/-! strict unpadded standard base64 (what `format.DecodeString` accepts) -/
+
+def b64val (c : Char) : Option Nat :=
+  let n := c.toNat
+  if 65 ≤ n ∧ n ≤ 90 then some (n - 65)
+  else if 97 ≤ n ∧ n ≤ 122 then some (n - 71)
+  else if 48 ≤ n ∧ n ≤ 57 then some (n + 4)
+  else if c = '+' then some 62
+  else if c = '/' then some 63
+  else none
+
+def b64go : List Nat → Option Bytes
+  | [] => some []
+  | [_] => none
+  | [a, b] => if b % 16 = 0 then some [(a * 4 + b / 16).toUInt8] else none
+  | [a, b, c] => if c % 4 = 0 then some [(a * 4 + b / 16).toUInt8, ((b % 16) * 16 + c / 4).toUInt8] else none
+  | a :: b :: c :: d :: rest =>
+    (b64go rest).map fun r =>
+      (a * 4 + b / 16).toUInt8 :: ((b % 16) * 16 + c / 4).toUInt8 :: ((c % 4) * 64 + d).toUInt8 :: r
+
+def b64dec (s : String) : Option Bytes := (s.toList.mapM b64val).bind b64go
+
+/-! parsing -/
+
+def unhexStr (s : String) : Option String := do
+  let b ← unhex s
+  String.fromUTF8? (ByteArray.mk b.toArray)
+
+def parseStanza (s : String) : Option Stanza :=
+  match splitOn s '|' with
+  | [head, body] =>
+    match (splitOn head ',').mapM unhexStr, unhex body with
+    | some (t :: args), some b => some ⟨t, args, b⟩
+    | _, _ => none
+  | _ => none
+
+def parseStanzas (s : String) : Option (List Stanza) :=
+  if s = "-" then some [] else (splitOn s ';').mapM parseStanza
+
+def parseConv (s : String) : Option Conv :=
+  let parts := splitOn s ';'
+  match parts.getLast? with
+  | none => none
+  | some last =>
+    let e : Option End := if last = "eof" then some .eof else if last = "bad" then some .malformed else none
+    match e, parts.dropLast.mapM parseStanza with
+    | some e, some ms => some ⟨ms, e⟩
+    | _, _ => none
+
+/-! the scripted UI; its state is the log of invocations -/
+
+def mkUI (code : String) : Option (UI (List String)) :=
+  match code.toList with
+  | [d, r, c] =>
+    if [d, r, c].all (fun x => x = 'a' ∨ x = 'o' ∨ x = 'e') then
+      some {
+        display := if d = 'a' then none else
+          some fun log body => (log ++ [s!"d:{hexOrDash body}"], d = 'o')
+        request := if r = 'a' then none else
+          some fun log prompt secret =>
+            (log ++ [s!"r:{hexOrDash prompt}:{if secret then "1" else "0"}"],
+             if r = 'o' then some (str (if secret then "secret" else "public")) else none)
+        confirm := if c = 'a' then none else
+          some fun log prompt yes no =>
+            (log ++ [s!"c:{hexOrDash prompt}:{hexOrDash yes}:{hexOrDash no}"],
+             if c = 'o' then some (prompt != str "no") else none) }
+    else none
+  | _ => none
+
+/-! rendering -/
+
+def hexS (s : String) : String := hexOrDash (str s)
+
+def showStanza (s : Stanza) : String :=
+  ",".intercalate ((s.type :: s.args).map hexS) ++ "|" ++ hexOrDash s.body
+
+def showStanzas (l : List Stanza) : String :=
+  if l.isEmpty then "-" else ";".intercalate (l.map showStanza)
+
+def showErr : ClientErr → String
+  | .incorrectIdentity => "incorrect"
+  | .pluginError t => s!"pluginerr:{hexOrDash t}"
+  | .protocol => "protocol"
+  | .ended .eof => "eof"
+  | .ended .malformed => "malformed"
+  | .noStanzas => "nostanzas"
+
+def dropGrease : List Stanza → List Stanza
+  | a :: _ :: rest => a :: rest
+  | l => l
+
+def showOutcome {α : Type} (o : Outcome (List String) α) (showOk : α → String) : String :=
+  let ui := if o.ui.isEmpty then "-" else ";".intercalate o.ui
+  let (cls, vals) := match o.result with
+    | .ok v => ("ok", " " ++ showOk v)
+    | .error e => (showErr e, "")
+  s!"{cls} p1={showStanzas (dropGrease o.phase1)} r={showStanzas o.replies} ui={ui}{vals}"
+
+def plugrec (args : List String) : String :=
+  match args with
+  | [ui, idm, enc, fk, conv] =>
+    match mkUI ui, bool? idm, unhexStr enc, unhex fk, parseConv conv with
+    | some ui, some idm, some enc, some fk, some conv =>
+      showOutcome (recipientClient ui b64dec [] idm enc fk "grease" conv) fun (sts, labels) =>
+        let l := match labels with
+          | none => "nil"
+          | some ls => "some:" ++ ",".intercalate (ls.map hexS)
+        s!"st={showStanzas sts} labels={l}"
+    | _, _, _, _, _ => "bad-args"
+  | _ => "bad-arity"
+
+def plugid (args : List String) : String :=
+  match args with
+  | [ui, enc, sts, conv] =>
+    match mkUI ui, unhexStr enc, parseStanzas sts, parseConv conv with
+    | some ui, some enc, some sts, some conv =>
+      showOutcome (identityClient ui b64dec [] enc sts "grease" conv) fun k => s!"key={hexOrDash k}"
+    | _, _, _, _ => "bad-args"
+  | _ => "bad-arity"
 
 def handle (op : String) (args : List String) : Option String :=
-  match op, args with
-  | _, _ => none
+  match op with
+  | "plugrec" => some (plugrec args)
+  | "plugid" => some (plugid args)
+  | _ => none
 
 end Plugin
 end Exec
